@@ -313,7 +313,7 @@ ApplyUpdate(s, h, present) ==
    LET w == UpdateWinner(s, h, present) IN IF w = "" THEN s ELSE [s EXCEPT !.versions = Append(@, [name |-> w, h |-> h])]
 
 \* payout of one validator (no owner has locked stakes): 10% DAO, 10% developers, commission, delegators by bip value; everything is delegated
-Tenth(a) == a // Nat2A(10)
+PayTenth(a) == a // Nat2A(10)
 RECURSIVE PayStakes(_, _, _, _, _)
 PayStakes(s, p, stakes, rest, vstake) ==
    IF stakes = <<>> THEN s
@@ -325,7 +325,7 @@ PayOne(s, i) ==
    LET v == s.vals[i]  p == v.p
    IN IF (v.toDrop /\ v.stake = Zero) \/ p \notin DOMAIN s.cands THEN s
       ELSE LET a == v.accum
-               dao == Tenth(a)  dev == Tenth(a)
+               dao == PayTenth(a)  dev == PayTenth(a)
                t1 == (a -- dao) -- dev
                cut == (t1 ** Nat2A(s.cands[p].comm)) // Nat2A(100)
                rest == t1 -- cut
@@ -360,11 +360,11 @@ RecalcCand(cd) ==
 RecalcS(s) == [s EXCEPT !.cands = [p \in DOMAIN @ |-> RecalcCand(@[p])]]
 
 \* the new validator set: online candidates with at least the minimum stake, by total stake (ties: higher id first), at most 64
-Eligible(s, cfg, unit) == {p \in DOMAIN s.cands : s.cands[p].status = 2 /\ MinStakeOf(cfg, unit) \preceq s.cands[p].total}
+EligibleS(s, cfg, unit) == {p \in DOMAIN s.cands : s.cands[p].status = 2 /\ MinStakeOf(cfg, unit) \preceq s.cands[p].total}
 Before(s, p, q) == s.cands[q].total \prec s.cands[p].total \/ (s.cands[p].total = s.cands[q].total /\ s.cands[p].id > s.cands[q].id)
 Ranked(s, S) == SortSeq(SetToSeq(S), LAMBDA p, q : Before(s, p, q))
 NewVals(s, cfg, unit) ==
-   LET r == Ranked(s, Eligible(s, cfg, unit))
+   LET r == Ranked(s, EligibleS(s, cfg, unit))
        chosen == IF Len(r) > MaxValidators THEN SubSeq(r, 1, MaxValidators) ELSE r
        old(p) == IF ValIdx(s, p) = {} THEN [accum |-> Zero, bits |-> ZeroBits(cfg), absent |-> 0]
                  ELSE LET v == s.vals[MinOf(ValIdx(s, p))] IN [accum |-> v.accum, bits |-> v.bits, absent |-> v.absent]
